@@ -488,6 +488,8 @@ fn gen_queries(r: &mut Rng, ids: &[Id], with_tables: bool, prefix_focus: usize) 
 struct Ctx {
     scratch: Scratch,
     counter: u64,
+    /// the last multi-pack index gitoxide wrote, with the queries that went with it (source of `midxraw` cases)
+    last_midx: Option<(Vec<u8>, Vec<String>)>,
 }
 
 impl Ctx {
@@ -717,6 +719,7 @@ fn exec_midx(rep: &mut Report, ctx: &mut Ctx, a: &[&str], op: &str) -> Option<St
     };
     let mpath = dir.join("multi-pack-index");
     std::fs::write(&mpath, &bytes).ok()?;
+    ctx.last_midx = Some((bytes.clone(), qs.iter().filter(|q| **q != "T").map(|q| q.to_string()).collect()));
     let obs = match catch(|| multi_index::File::at(&mpath)) {
         Err(m) => {
             rep.oracle_failure(
@@ -793,12 +796,188 @@ fn exec_midx(rep: &mut Report, ctx: &mut Ctx, a: &[&str], op: &str) -> Option<St
     Some(obs)
 }
 
+/// chunk ranges of a chunk file, parsed defensively (None if the table of contents is not usable)
+fn chunk_ranges(b: &[u8], toc_at: usize) -> Option<Vec<([u8; 4], usize, usize)>> {
+    let n = *b.get(6)? as usize;
+    let mut toc = Vec::new();
+    for k in 0..=n {
+        let e = b.get(toc_at + 12 * k..toc_at + 12 * k + 12)?;
+        toc.push(([e[0], e[1], e[2], e[3]], u64::from_be_bytes(e[4..].try_into().ok()?) as usize));
+    }
+    let mut out = Vec::new();
+    for k in 0..n {
+        if toc[k].1 > toc[k + 1].1 || toc[k + 1].1 > b.len() {
+            return None;
+        }
+        out.push((toc[k].0, toc[k].1, toc[k + 1].1));
+    }
+    Some(out)
+}
+
+fn midx_open_err(e: &multi_index::init::Error) -> String {
+    use multi_index::init::Error::*;
+    match e {
+        Io { .. } => "err:io".into(),
+        Corrupt { .. } => "err:corrupt".into(),
+        UnsupportedVersion { .. } => "err:version".into(),
+        UnsupportedObjectHash { .. } => "err:hash".into(),
+        ChunkFileDecode(c) => {
+            let m = c.to_string();
+            let k = if m.starts_with("Sentinel value encountered") {
+                "early-sentinel"
+            } else if m.starts_with("Sentinel value wasn't found") {
+                "missing-sentinel"
+            } else if m.starts_with("The chunk offset") {
+                "out-of-bounds"
+            } else if m.starts_with("All chunk offsets") {
+                "non-incremental"
+            } else if m.starts_with("The chunk of kind") {
+                "duplicate"
+            } else if m.starts_with("The table of contents") {
+                "toc-too-small"
+            } else if m.starts_with("Empty chunk indices") {
+                "empty"
+            } else {
+                "other"
+            };
+            format!("err:chunk:{k}")
+        }
+        MissingChunk(_) | FileTooLarge(_) => "err:missing-chunk".into(),
+        MultiPackFanSize => "err:fan-size".into(),
+        PackNames(_) => "err:names".into(),
+        InvalidChunkSize { .. } => "err:chunk-size".into(),
+    }
+}
+
+/// `midxraw <multi-pack-index bytes> | queries`: opened and queried with the real reader
+fn exec_midxraw(rep: &mut Report, ctx: &mut Ctx, a: &[&str], op: &str) -> Option<String> {
+    let bytes = unhex(a.get(1)?)?;
+    if a.get(2) != Some(&"|") {
+        return None;
+    }
+    let qs = &a[3..];
+    // the model compares index names as byte strings; `PathBuf` does so only for plain file names
+    if let Some(r) = chunk_ranges(&bytes, 12) {
+        if let Some((_, s, e)) = r.iter().find(|c| &c.0 == b"PNAM") {
+            let names = &bytes[*s..*e];
+            if names.contains(&b'/') || names.split(|b| *b == 0).any(|n| n == b"." || n == b"..") {
+                rep.outside_domain("multi-pack-index whose index names are not plain file names: skipped");
+                return None;
+            }
+        }
+    }
+    let dir = ctx.fresh("midxraw");
+    std::fs::create_dir_all(&dir).ok()?;
+    let mpath = dir.join("multi-pack-index");
+    std::fs::write(&mpath, &bytes).ok()?;
+    let obs = match catch(|| multi_index::File::at(&mpath)) {
+        Err(_) => "panic".to_string(),
+        Ok(Err(e)) => midx_open_err(&e),
+        Ok(Ok(f)) => {
+            let ranges = chunk_ranges(&bytes, 12).unwrap_or_default();
+            let chunk = |id: &[u8; 4]| ranges.iter().find(|c| &c.0 == id).map(|c| &bytes[c.1..c.2]);
+            let fan_hex = hex(chunk(b"OIDF").unwrap_or(&[]));
+            let tables = format!(
+                "{},{},{}",
+                f.num_objects(),
+                f.num_indices(),
+                f.index_names().iter().map(|n| hex(n.to_string_lossy().as_bytes())).collect::<Vec<_>>().join(",")
+            );
+            let answers: Vec<String> = qs.iter().map(|q| answer(&f, &fan_hex, &tables, q)).collect();
+            // oracle, on what a writer produces: ids strictly ascending, fan-out = cumulative counts
+            if let Ok(scan) = catch(|| f.scan()) {
+                let fan_ok = chunk(b"OIDF").map_or(false, |fan| {
+                    fan.len() == 1024
+                        && (0..256usize).all(|b| {
+                            let want = scan.iter().filter(|e| e.0[0] as usize <= b).count() as u32;
+                            u32::from_be_bytes(fan[4 * b..4 * b + 4].try_into().unwrap()) == want
+                        })
+                });
+                if fan_ok && scan.windows(2).all(|w| w[0].0 < w[1].0) {
+                    let escapes_ok = !answers.iter().any(|x| x == "panic");
+                    if escapes_ok {
+                        judge(rep, "midxraw", scan.len(), qs, &answers, &scan, op);
+                    } else {
+                        rep.outside_domain("multi-pack-index with a large-offset index past the end of the file: no oracle");
+                    }
+                }
+            }
+            answers.join(" ")
+        }
+    };
+    let _ = std::fs::remove_dir_all(&dir);
+    Some(obs)
+}
+
+/// random damage to a multi-pack-index file: correspondence only
+fn mutate_midx(r: &mut Rng, f: &mut Vec<u8>, rep: &mut Report) {
+    let kind = r.below(9);
+    rep.bucket(&format!("midxraw:mutation{kind}"));
+    let n_chunks = f[6] as usize;
+    let ranges = chunk_ranges(f, 12).unwrap_or_default();
+    let find = |id: &[u8; 4]| ranges.iter().find(|c| &c.0 == id).map(|c| (c.1, c.2));
+    match kind {
+        0 => {
+            let keep = r.usize(f.len());
+            f.truncate(keep);
+        }
+        1 => {
+            let k = r.usize(12);
+            f[k] ^= 1 << r.below(8);
+        }
+        2 => {
+            // a chunk offset, low bytes
+            let e = r.usize(n_chunks + 1);
+            let k = 12 + 12 * e + 10 + r.usize(2);
+            if k < f.len() {
+                f[k] = f[k].wrapping_add(1 + r.below(40) as u8);
+            }
+        }
+        3 => {
+            if let Some((s, _)) = find(b"OIDF") {
+                let k = s + r.usize(1024);
+                f[k] ^= 1 << r.below(3);
+            }
+        }
+        4 => {
+            // an offset entry becomes a large-offset escape
+            if let Some((s, e)) = find(b"OOFF") {
+                if e > s {
+                    let entry = r.usize((e - s) / 8);
+                    f[s + entry * 8 + 4] |= 0x80;
+                    if r.chance(1, 2) {
+                        f[s + entry * 8 + 7] = 0xff;
+                    }
+                }
+            }
+        }
+        5 => f[6] = f[6].wrapping_add(*r.pick(&[1u8, 255])),
+        6 => {
+            // a chunk id in the table of contents
+            let e = r.usize(n_chunks.max(1));
+            let k = 12 + 12 * e + r.usize(4);
+            if k < f.len() {
+                f[k] ^= 0x01;
+            }
+        }
+        7 => {
+            let extra = r.usize(3) + 1;
+            f.extend(std::iter::repeat(0).take(extra));
+        }
+        _ => {
+            // the pack count in the header
+            f[11] = f[11].wrapping_add(*r.pick(&[1u8, 255]));
+        }
+    }
+}
+
 fn exec(rep: &mut Report, ctx: &mut Ctx, op: &str) {
     let a: Vec<&str> = op.split(' ').collect();
     let obs = match a[0] {
         "idx" => exec_idx(rep, ctx, &a, op),
         "raw" => exec_raw(rep, ctx, &a, op),
         "midx" => exec_midx(rep, ctx, &a, op),
+        "midxraw" => exec_midxraw(rep, ctx, &a, op),
         _ => None,
     };
     match obs {
@@ -1204,6 +1383,13 @@ fn git_written(rep: &mut Report, ctx: &mut Ctx, r: &mut Rng, rounds: usize) {
                 let answers: Vec<String> = qs.iter().map(|q| answer(&f, "", "", q)).collect();
                 let desc = format!("git-midx round={round} packs={npacks} n={}", ids.len());
                 rep.oracle_only(&desc, true);
+                if let Ok(mb) = std::fs::read(&mpath) {
+                    if mb.len() < 60_000 {
+                        rep.bucket("midxraw:git-written");
+                        let qraw: Vec<String> = qs.iter().map(|q| q.to_string()).collect();
+                        exec(rep, ctx, &format!("midxraw {} | F T {}", hex(&mb), qraw.join(" ")));
+                    }
+                }
                 rep.git_checked(1);
                 rep.bucket(&format!("git-midx:packs{npacks}:n{}", size_class(ids.len())));
                 // the union of the packs' own indices is what must be found
@@ -1228,7 +1414,7 @@ fn main() {
     let args = Args::parse();
     let mut rep = Report::new("C09", &args);
     let mut r = Rng::new(args.seed);
-    let mut ctx = Ctx { scratch: Scratch::new("c09"), counter: 0 };
+    let mut ctx = Ctx { scratch: Scratch::new("c09"), counter: 0, last_midx: None };
     if let Some(ops) = replay_ops(&args) {
         for op in ops {
             exec(&mut rep, &mut ctx, &op);
@@ -1375,6 +1561,19 @@ fn main() {
             _ => {
                 let op = gen_midx_op(&mut r, !args.thorough || i % 4 != 0, &mut rep);
                 exec(&mut rep, &mut ctx, &op);
+                // the same file, and damaged versions of it, through the byte-level model
+                if let Some((bytes, qs)) = ctx.last_midx.take() {
+                    if bytes.len() < 40_000 {
+                        rep.bucket("midxraw:gitoxide-written");
+                        exec(&mut rep, &mut ctx, &format!("midxraw {} | T {}", hex(&bytes), qs.join(" ")));
+                        let few: Vec<String> = qs.iter().filter(|q| !q.starts_with('P')).take(40).cloned().collect();
+                        for _ in 0..2 {
+                            let mut m = bytes.clone();
+                            mutate_midx(&mut r, &mut m, &mut rep);
+                            exec(&mut rep, &mut ctx, &format!("midxraw {} | T {}", hex(&m), few.join(" ")));
+                        }
+                    }
+                }
             }
         }
     }
